@@ -19,7 +19,7 @@ func init() {
 		ID:    "C04",
 		Level: "model_checking",
 		Rule: "12 chain contexts ({.,@,$} x {plain,&,~,=}) x 3 call forms (property, literal, variable) x receivers (arrays of n<=4 (thorough 5) tagged elements, each in {value,nil-result,raise,nil element}, with r/comb either props of the elements' prototype or answered by its _missing (n<=3, thorough 4); scalar receivers; " +
-			"int/str/range/obj/map/iterator receivers with 3 callee variants) x chain argument {absent, [], {}, %{}} / initial accumulator {absent, given}; result and call trace compared with a chain model; " +
+			"int/str/range/obj/map/iterator receivers with 3 callee variants) x chain argument {absent, [], {}, %{}} / initial accumulator {absent, given}; result and call trace compared with a chain model; every pair of list chains ((context, form) x (context, form)) digesting 1-2 results into the same array variable of length 0..8, all three values read afterwards; " +
 			"non-trivial = at least one element whose result is nil or a raise, a nil element, or a chain argument; distinct = distinct source",
 		Assumptions: []string{
 			"don't-care: `~@` applied to a nil element (kept nil vs dropped) is not generated",
@@ -49,6 +49,10 @@ type tcase struct {
 	Arg   string `json:"arg,omitempty"` // chain argument / init source, "" = absent
 	Recv  string `json:"recv,omitempty"`
 	Var   string `json:"var,omitempty"` // callee variant for "other" receivers
+	// history cases (Kind "hist"): two list chains digesting into the same array variable
+	Add2  string `json:"add2,omitempty"`
+	Form2 string `json:"form2,omitempty"`
+	BaseN int    `json:"base_n,omitempty"`
 	Cls   string `json:"cls,omitempty"` // "" = elements are E (r/comb are props of the prototype), "EM" = resolved through the prototype's _missing
 }
 
@@ -192,6 +196,9 @@ func (t tcase) src() string {
 	if t.Kind == "other" {
 		return otherSrc(t)
 	}
+	if t.Kind == "hist" {
+		return histSrc(t)
+	}
 	parts := make([]string, len(t.Elems))
 	for i, e := range t.Elems {
 		parts[i] = elemSrc(e, t.Cls)
@@ -218,6 +225,56 @@ func (t tcase) src() string {
 		return "xs := " + recv + "\nxs" + ch + arg + lit
 	}
 	return "xs := " + recv + "\nxs" + ch + arg + v
+}
+
+// ---------------------------------------------------------------- shared chain argument (history)
+
+func histBase(n int) []string {
+	b := make([]string, n)
+	for i := range b {
+		b[i] = fmt.Sprint(i + 1)
+	}
+	return b
+}
+
+func histCallee(form string) string {
+	switch form {
+	case "property":
+		return "r"
+	case "literal":
+		return "{|e| e.r}"
+	}
+	return "^fr"
+}
+
+// histSrc: r1 and r2 digest their results into the same array `base`; all three are read afterwards.
+func histSrc(t tcase) string {
+	var e1, e2 []string
+	for _, e := range t.Elems {
+		e1 = append(e1, elemSrc(e, ""))
+		e2 = append(e2, elemSrc(e+50, ""))
+	}
+	return "base := [" + strings.Join(histBase(t.BaseN), ", ") + "]\n" +
+		"r1 := [" + strings.Join(e1, ", ") + "]" + t.Add + "@(base)" + histCallee(t.Form) + "\n" +
+		"r2 := [" + strings.Join(e2, ", ") + "]" + t.Add2 + "@(base)" + histCallee(t.Form2) + "\n" +
+		"[r1, r2, base]"
+}
+
+func histModel(t tcase) outcome {
+	var out strings.Builder
+	b := histBase(t.BaseN)
+	r1 := append([]string{}, b...)
+	r2 := append([]string{}, b...)
+	for _, e := range t.Elems {
+		fmt.Fprintf(&out, "c%d\n", e)
+		r1 = append(r1, fmt.Sprint(e+100))
+	}
+	for _, e := range t.Elems {
+		fmt.Fprintf(&out, "c%d\n", e+50)
+		r2 = append(r2, fmt.Sprint(e+50+100))
+	}
+	j := func(x []string) string { return "[" + strings.Join(x, ", ") + "]" }
+	return outcome{out: out.String(), val: "[" + j(r1) + ", " + j(r2) + ", " + j(b) + "]"}
 }
 
 // ---------------------------------------------------------------- other receiver kinds
@@ -342,6 +399,21 @@ func gen(thorough bool, emit func(tcase)) {
 		emit(t)
 	})
 	genRest(emit)
+	// two chains with the same array as chain argument: every (context, form) pair x base length 0..8 x 1..2 results
+	for _, a1 := range adds {
+		for _, a2 := range adds {
+			for _, f1 := range forms {
+				for _, f2 := range forms {
+					for n := 0; n <= 8; n++ {
+						emit(tcase{Kind: "hist", Main: "@", Add: a1, Form: f1, Add2: a2, Form2: f2, BaseN: n, Elems: []int{11}})
+						if thorough || a1 == a2 {
+							emit(tcase{Kind: "hist", Main: "@", Add: a1, Form: f1, Add2: a2, Form2: f2, BaseN: n, Elems: []int{11, 21}})
+						}
+					}
+				}
+			}
+		}
+	}
 }
 
 func genCls(cls string, maxN int, emit func(tcase)) {
@@ -441,7 +513,7 @@ func digestModel(t tcase) outcome {
 }
 
 func nontrivial(t tcase) bool {
-	if t.Arg != "" || t.Kind == "other" || t.Kind == "digest" {
+	if t.Arg != "" || t.Kind == "other" || t.Kind == "digest" || t.Kind == "hist" {
 		return true
 	}
 	for _, e := range t.Elems {
@@ -475,6 +547,8 @@ func keyOf(t tcase, want outcome, o panrun.Obs) string {
 		sub = "/other-receiver/" + t.Var
 	case t.Kind == "digest":
 		sub = "/digest"
+	case t.Kind == "hist":
+		sub = "/shared-chain-argument-history"
 	case hasNilElem:
 		sub = "/nil-element"
 	case hasNilRes && hasRaise:
@@ -503,6 +577,8 @@ func judge(c *core.Ctx, t tcase, o panrun.Obs) {
 	switch t.Kind {
 	case "other":
 		want = otherModel(t)
+	case "hist":
+		want = histModel(t)
 	case "digest":
 		want = digestModel(t)
 		if want.val == "?" {
@@ -564,7 +640,7 @@ func groupKey(t tcase) string {
 }
 
 func crossForm(c *core.Ctx, t tcase, o panrun.Obs) {
-	if t.Kind == "digest" || (t.Kind == "reduce" && t.Add == "&") {
+	if t.Kind == "digest" || t.Kind == "hist" || (t.Kind == "reduce" && t.Add == "&") {
 		return
 	}
 	k := groupKey(t)
